@@ -103,7 +103,7 @@ Proof. exact Sink_proofs.history_ok_all_written_proof. Qed.
 Print Assumptions history_ok_all_written.
 
 Example history_nonvacuous :
-  let ops := [AOp (WRegister [97]); ALimit true 3; AOp (WAdd 0 [1; 2] 7); ALimit true 100; AOp (WAddBuf 0 [3] 1);
+  let ops := [AOp (WRegister [97]); ALimit true 4; AOp (WAdd 0 [1; 2] 7); ALimit true 100; AOp (WAddBuf 0 [3] 1);
               AOp WFlush] in
   Forall (fun x => x <> WErr) (snd (ar_run code_sites (ar_open (limit_policy true 0) 2) ops)) /\
   snd (ar_close code_sites (fst (ar_run code_sites (ar_open (limit_policy true 0) 2) ops))) = Ok tt.
@@ -121,7 +121,7 @@ Definition w1 : list wop := [WRegister [97]; WAddBuf 0 [1; 2] 7].
 Definition w2 : list wop :=
   [WRegister [97]; WAddBuf 0 [1;2;3;4;5;6;7;8;9;10;11;12;13;14;15;16;17;18;19;20;21;22;23;24;25;26;27;28;29;30;31;32]
                            18446744073709551615].
-Ltac witness := unfold truncated_success; vm_compute; split; [reflexivity | intro X; discriminate X].
+Ltac witness := unfold truncated_success; vm_compute; split; [reflexivity | let H := fresh in intro H; discriminate H].
 
 Theorem site_add_meta_needed : truncated_success (site_off 0 code_sites) (oneshot_policy 0 0) 0 w1.
 Proof. witness. Qed.
